@@ -77,17 +77,69 @@ def toJVal : Json → JVal
   | .num n => if n.exponent = 0 then .int n.mantissa else .other (Json.num n).compress
   | j => .other j.compress
 
-/-- `_parse_atom_attributes(token)` / `json.loads` of a dictionary token -/
-def parseAttrs (tok : String) : Option Attrs :=
-  if !startsWithBrace tok then none
-  else match Json.parse tok with
-    | .ok (.obj kv) => some (kv.toList.map fun (k, v) => (k, toJVal v))
-    | _ => none
-
 def parseJVal (tok : String) : Option JVal :=
   match Json.parse tok with
   | .ok j => some (toJVal j)
   | .error _ => none
+
+/-- a string value containing `|` becomes `Choice(value.split('|'))` -/
+def attrValue : Json → JVal
+  | .str s => if s.toList.contains '|' then .choice (s.splitOn "|") else .str s
+  | j => toJVal j
+
+/-- `_parse_atom_attributes(token)` / `json.loads` of a dictionary token -/
+def parseAttrs (tok : String) : Option Attrs :=
+  if !startsWithBrace tok then none
+  else match Json.parse tok with
+    | .ok (.obj kv) => some (kv.toList.map fun (k, v) => (k, attrValue v))
+    | _ => none
+
+/-- keys of `VALUE_PREDICATES` (checked against the extracted table by `Tables.predicates_match`) -/
+def valuePredicates : List String := ["not"]
+
+/-- `PARAMETER_EFFECTORS` with `n_keys_asked` (checked against the extracted table) -/
+def paramEffectors : List (String × Option Nat) :=
+  [("dist", some 2), ("angle", some 3), ("dihedral", some 4), ("dihphase", some 4)]
+
+/-- `_is_param_effector(token)` -/
+def isEffectorTok (t : String) : Bool :=
+  let cs := t.toList
+  cs.contains '(' && cs.head? != some '(' && cs.getLast? = some ')'
+
+/-- `_parse_interaction_parameters` on one token: a parameter effector must name a known effector,
+have at most one `|` (format) and the number of keys its class asks for; the token itself is kept
+verbatim (floats and effectors are never evaluated by the reader). -/
+def paramOk (t : String) : Bool :=
+  if !isEffectorTok t then true
+  else
+    let cs := t.toList
+    let name := String.ofList (cs.takeWhile (· ≠ '('))
+    let inner := String.ofList ((cs.dropWhile (· ≠ '(')).drop 1).dropLast
+    match paramEffectors.find? (fun e => e.1 = name) with
+    | none => false
+    | some (_, nkeys) =>
+      let parts := inner.splitOn "|"
+      let keyStr := if inner.toList.contains '|' then parts.head! else inner
+      (!inner.toList.contains '|' || parts.length = 2) &&
+      (match nkeys with
+       | some n => (keyStr.splitOn ",").length = n
+       | none => true)
+
+/-- the value of a link attribute line (`_parse_link_attribute`) -/
+def linkAttrValue (v : String) : Option JVal :=
+  let cs := v.toList
+  if cs.contains '|' then
+    match Json.parse v with
+    | .ok (.str s) => some (.choice (s.splitOn "|"))
+    | _ => none
+  else if cs.contains '(' && cs.getLast? = some ')' && cs.head? != some '(' then
+    let func := String.ofList (cs.takeWhile (· ≠ '('))
+    let arg := String.ofList ((cs.dropWhile (· ≠ '(')).drop 1).dropLast
+    match Json.parse arg with
+    | .ok j => if valuePredicates.contains func then some (.notP j.compress) else none
+    | .error _ => none
+  else parseJVal v
+
 
 /-- `dict(a); .update(b)` : b over a -/
 def attrsUpdate (a b : Attrs) : Attrs := b.foldl (fun acc kv => acc.set kv.1 kv.2) a
@@ -150,14 +202,17 @@ def atomsWithAttrs (natoms : Option Nat) (check : Bool) (toks : List String) :
 
 /-- the tail of `_base_parser`: optional trailing meta dictionary, parameters -/
 def paramsOf (rest : List String) : Option (List String) :=
-  match rest.getLast? with
-  | some l =>
-    if startsWithBrace l then
-      match Json.parse l with
-      | .ok _ => some rest.dropLast
-      | .error _ => none
-    else some rest
-  | none => some []
+  let ps := match rest.getLast? with
+    | some l =>
+      if startsWithBrace l then
+        match Json.parse l with
+        | .ok _ => some rest.dropLast
+        | .error _ => none
+      else some rest
+    | none => some []
+  match ps with
+  | some l => if l.all paramOk then some l else none
+  | none => none
 
 /-- `_treat_block_interaction_atoms` (python list indexing: index 0 is the last atom) -/
 def blockRef (c : Ctx) (ref : String) : Option String :=
@@ -277,7 +332,7 @@ def linkAttrLine (molmeta : Bool) (line : String) (c : Ctx) : Option Ctx := do
   let toks ← tokenizeS line
   match toks with
   | [k, v] =>
-    let jv ← parseJVal v
+    let jv ← linkAttrValue v
     if molmeta then pure c else pure { c with allNodes := c.allNodes.set k jv }
   | _ => none
 
